@@ -29,6 +29,7 @@ T_Build       == IsEvent("Build") /\ Build(E.kind, E.len, E.dir, E.scr)
 T_PlanEnd     == IsEvent("PlanEnd") /\ PlanEnd(E.pid, E.iid, E.outcome, E.len, E.rdir, E.scr)
 T_PlanReport  == IsEvent("PlanReport") /\ PlanReport(E.pid, E.n, E.dir, E.outcome, E.tree)
 T_Construct   == IsEvent("Construct") /\ Construct(E.iid, E.elem, E.outcome, E.n, E.dir, E.len, E.rdir, E.scr)
+T_ElemReport  == IsEvent("ElemReport") /\ ElemReport(E.elem, E.non_ring, E.tags_ok)
 T_CallBegin   == IsEvent("CallBegin") /\ CallBegin(E.cid, E.iid, E.entry, E.data, E.out, E.scratch, E.inh)
 T_CallEnd     == IsEvent("CallEnd") /\ CallEnd(E.cid, E.outcome, E.obs, E.role, E.key, E.outh)
 \* hook-level chunk accounting is judged by the faithful CallProtocol model (separate config); here it stutters
@@ -40,7 +41,7 @@ TraceInit == Init /\ l = 1 /\ TLCSet(7, 0)
 TraceNext ==
     \/ T_Reset \/ T_NewPlanner \/ T_DropPlanner
     \/ T_PlanBegin \/ T_CacheGet \/ T_CacheInsert \/ T_Build \/ T_PlanEnd \/ T_PlanReport \/ T_Construct
-    \/ T_CallBegin \/ T_CallEnd \/ T_Iter \/ T_Note
+    \/ T_CallBegin \/ T_CallEnd \/ T_Iter \/ T_Note \/ T_ElemReport
 
 TraceSpec == TraceInit /\ [][TraceNext]_tvars
 
